@@ -188,14 +188,22 @@ package proto
 //@   ensures unknown_roots: anchor != root && (!has(pr.blockSlots, anchor) || !has(pr.blockSlots, root)) ==> unknown && !inSubtree
 //@   ensures known_roots: old(pr.updatedConnections) && has(pr.blockSlots, anchor) && has(pr.blockSlots, root) ==> !unknown
 
+// pa_anc(a, l): node a is l or is reached from l by following transition parents (the tree that was inserted)
+//@ defrec pa_anc(nodes Nodes, off int, a int, l int) bool = ite(l == a, true, ite(l < a || l < off || l >= off + len(nodes), false, ite(nodes[l - off].TransitionParent == NONE, false, pa_anc(nodes, off, a, nodes[l - off].TransitionParent))))
+// inSubtree against that relation: every descendant at a later slot is reported (complete); and where the anchor has no
+// best descendant (a leaf, or nothing viable below it) a reported node really is a descendant (sound_without_best).
+// With a best descendant the answer leans on the best-descendant links being descendants, which is not under contract.
 //@ func (pr *ProtoArray) inSubtree(anchorIndex, lookupIndex) (unknown, inSubtree)
 //@   property C11
 //@   requires pr != nil && pa_ok(pr.nodes, pr.indices, pr.indexOffset)
 //@   ensures same: anchorIndex == lookupIndex ==> !unknown && inSubtree
 //@   ensures valid: pr.indexOffset <= anchorIndex && anchorIndex < pr.indexOffset + len(pr.nodes) && pr.indexOffset <= lookupIndex && lookupIndex < pr.indexOffset + len(pr.nodes) ==> !unknown
 //@   ensures order: !unknown && inSubtree && anchorIndex != lookupIndex ==> anchorIndex < lookupIndex
+//@   ensures complete: !unknown && anchorIndex != lookupIndex && pa_anc(pr.nodes, pr.indexOffset, anchorIndex, lookupIndex) && pr.nodes[anchorIndex - pr.indexOffset].Ref.Slot < pr.nodes[lookupIndex - pr.indexOffset].Ref.Slot ==> inSubtree
+//@   ensures sound_without_best: !unknown && inSubtree && anchorIndex != lookupIndex && pr.nodes[anchorIndex - pr.indexOffset].BestDescendant == NONE ==> pa_anc(pr.nodes, pr.indexOffset, anchorIndex, lookupIndex)
 //@   loop 1
 //@     invariant i == NONE || (pr.indexOffset <= i && i < pr.indexOffset + len(pr.nodes))
+//@     invariant walk: pa_anc(pr.nodes, pr.indexOffset, anchorIndex, lookupIndex) == (i != NONE && pa_anc(pr.nodes, pr.indexOffset, anchorIndex, i))
 //@     decreases ite(i == NONE, 0, i + 1)
 
 //@ func (pr *ProtoArray) CanonicalChain(anchorRoot, anchorSlot) (chain, err)
